@@ -1559,6 +1559,75 @@ mod tk {
         (snapshot(&h), done)
     }
 
+    /// "As long as no more than the configured window of records is outstanding the exchange cannot deadlock", for windows
+    /// far above what the other workloads use (the DZKP validator configures a channel's window from the proof batch size,
+    /// in production well above the gateway default of 2^15): exactly one window of records is sent before the peer starts
+    /// to read; every send must be accepted, then every record comes back under its own id. Quiescence decides a stall.
+    #[test]
+    fn verif_c13_full_window_x1() {
+        use ipa_step::StepNarrow;
+        use crate::{ff::{U128Conversions, boolean_array::BA8}, utils::NonZeroU32PowerOfTwo};
+        let env = vlib::env();
+        let mut rec = Recorder::new("C13", "verif_c13_full_window_x1");
+        let windows: &[usize] = if env.thorough { &[1 << 10, 1 << 14, 1 << 15, 1 << 16, 1 << 17, 1 << 18] } else { &[1 << 10, 1 << 15, 1 << 16, 1 << 17] };
+        for (k, &window) in windows.iter().enumerate() {
+            for (from, to) in [(Role::H1, Role::H2), (Role::H3, Role::H1)] {
+                rec.eval();
+                let seed = env.seed.wrapping_mul(131) + k as u64;
+                let progress = Arc::new(Mutex::new((0usize, 0usize, 0usize)));
+                let p2 = Arc::clone(&progress);
+                let out = run_paused(Duration::from_secs(600), async move {
+                    let mut cfg = TestWorldConfig::default();
+                    cfg.seed = seed;
+                    cfg.timeout = None;
+                    let world = TestWorld::new_with(&cfg);
+                    let w = NonZeroU32PowerOfTwo::try_from(window).unwrap();
+                    let value = |i: usize| BA8::truncate_from(u128::try_from(i % 251).unwrap());
+                    let gate = Gate::default().narrow("c13-window");
+                    let sender = world.gateway(from).get_mpc_sender::<BA8>(&ChannelId::new(to, gate.clone()), TotalRecords::specified(4 * window).unwrap(), w);
+                    for i in 0..window {
+                        if sender.send(RecordId::from(i), value(i)).await.is_err() {
+                            p2.lock().unwrap().2 += 1;
+                        }
+                        p2.lock().unwrap().0 = i + 1;
+                    }
+                    let recv = world.gateway(to).get_mpc_receiver::<BA8>(&ChannelId::new(from, gate));
+                    let mut wrong = 0;
+                    for i in 0..window {
+                        match recv.receive(RecordId::from(i)).await {
+                            Ok(v) if v == value(i) => {}
+                            _ => wrong += 1,
+                        }
+                        p2.lock().unwrap().1 = i + 1;
+                    }
+                    wrong
+                });
+                let (sent, received, send_errors) = *progress.lock().unwrap();
+                let witness = json!({"window": window, "from": format!("{from:?}"), "to": format!("{to:?}"), "sends_accepted": sent, "received": received, "send_errors": send_errors});
+                match out {
+                    Paused::Quiescent => rec.violation(
+                        "sending exactly one window of records (nothing else outstanding) stalled, or the records did not all come back",
+                        json!({"kind": "full_window_stall", "phase": if sent < window { "send" } else { "receive" }, "window_above_gateway_default": window > (1 << 15)}),
+                        witness,
+                    ),
+                    Paused::Done(wrong) if wrong > 0 || send_errors > 0 => rec.violation(
+                        "a record sent inside the window did not come back under its own id",
+                        json!({"kind": "full_window_wrong_records"}),
+                        json!({"w": witness, "wrong": wrong}),
+                    ),
+                    Paused::Done(_) => {
+                        rec.count("full_windows_sent_then_received");
+                        rec.add("full_window_records_matched", window as u64);
+                        rec.distinct(&("window", window, from as usize));
+                        rec.seen("full_window_sizes", window.to_string());
+                    }
+                }
+            }
+        }
+        rec.sample(json!({"workload": "one full window outstanding before the peer reads", "windows": windows}));
+        rec.finish();
+    }
+
     /// E-paused: single-threaded deterministic runs with seeded virtual-time jitter between operations.
     #[test]
     fn verif_c13_paused() {
